@@ -866,5 +866,7 @@ class Gen:
         for _ in range(n):
             a = r.choices(acts, weights=w, k=1)[0]
             getattr(self, a)()
-        self.emit("counters", "store")
+            if r.random() < self.p.get("sig", 0.15):
+                self.emit("sig")         # what Online() and Offline() tell the application at this point
+        self.emit("sig", "counters", "store")
         return self.ops
